@@ -1,0 +1,6 @@
+//go:build !verif
+
+package crypto
+
+// verifTraceDKG is a verification hook; without the `verif` build tag it does nothing.
+func verifTraceDKG(kind string, s DKGState, dealerIndex int) DKGState { return nil }
